@@ -101,6 +101,9 @@ class Batch:
         self.wall = 0.0
         self.hello = None
         self.bye = []
+        self.proc_runs = {}      # worker process launch id -> run indices in the order that process executed them
+        self.run_proc = {}       # run index -> launch id
+        self.nlaunch = 0
 
     def worker_cmd(self, w, nworkers, start, total, budget, samples):
         cmd = [self.exe, "worker", "--property", self.prop, "--tier", self.tier, "--seed", str(self.seed), "--from", str(start), "--to", str(total),
@@ -144,6 +147,10 @@ class Batch:
                 remaining = max(1.0, budget - (time.time() - t0))
                 cmd = self.worker_cmd(w, nworkers, start, total, remaining, 1 if (collect_samples and w == 0 and start == 0) else 0)
                 p = subprocess.Popen(cmd, stdout=subprocess.PIPE, stderr=subprocess.DEVNULL, preexec_fn=self.pin_fn(w))
+                with self.lock:
+                    self.nlaunch += 1
+                    launch = self.nlaunch
+                    self.proc_runs[launch] = []
                 last_idx = None
                 got_bye = False
                 hung = False
@@ -185,6 +192,9 @@ class Batch:
                                 warm_crash = True
                                 continue
                             last_idx = j["run"]
+                            with self.lock:
+                                self.proc_runs[launch].append(j["run"])
+                                self.run_proc[j["run"]] = launch
                             self.absorb(j)
                 p.wait()
                 if warm_crash:
@@ -220,6 +230,25 @@ class Batch:
             t.join()
         self.wall = time.time() - t0
         return self
+
+    def predecessors(self, idx):
+        """run indices the same worker process executed before run idx, oldest first"""
+        launch = self.run_proc.get(idx)
+        if launch is None:
+            return []
+        order = self.proc_runs.get(launch, [])
+        return order[:order.index(idx)] if idx in order else []
+
+    def genplan(self, idx):
+        cmd = [self.exe, "genplan", "--property", self.prop, "--tier", self.tier, "--seed", str(self.seed), "--index", str(idx)]
+        if self.spec.get("mode"):
+            cmd += ["--mode", self.spec["mode"]]
+        r = subprocess.run(cmd, stdout=subprocess.PIPE, stderr=subprocess.DEVNULL, text=True, timeout=300)
+        for line in r.stdout.splitlines():
+            line = line.strip()
+            if line.startswith("{"):
+                return json.loads(line)
+        return None
 
     def absorb(self, j):
         plan = j.pop("plan", None)
@@ -294,6 +323,58 @@ def has_violation_other_config(res, cls, sig, sym):
     return False
 
 
+def with_process_history(exe, sym, batch, idx, plan, cls, sig, budget_s=240):
+    """returns plan + {"prelude": [...]} that reproduces (cls, sig) twice in fresh processes, or None"""
+    t0 = time.time()
+    preds = batch.predecessors(idx)
+    if not preds:
+        return None
+    cache = {}
+
+    def plan_of(i):
+        if i not in cache:
+            cache[i] = batch.genplan(i)
+        return cache[i]
+
+    def reproduces(prelude, times=2):
+        q = dict(plan)
+        q["prelude"] = prelude
+        q["replay"] = True
+        for _ in range(times):
+            if time.time() - t0 > budget_s:
+                return False
+            r = replay_once(exe, q, timeout=600)
+            if not has_violation(r, cls, sig, sym):
+                return False
+        return True
+
+    k = 1
+    chosen = None
+    while True:
+        sel = preds[-k:]
+        pl = [plan_of(i) for i in sel]
+        if all(p is not None for p in pl) and reproduces(pl):
+            chosen = pl
+            break
+        if k >= len(preds) or k >= 64 or time.time() - t0 > budget_s:
+            break
+        k = min(len(preds), k * 2)
+    if chosen is None:
+        return None
+    # drop prelude plans that are not needed (oldest first)
+    i = 0
+    while i < len(chosen) and len(chosen) > 1 and time.time() - t0 < budget_s:
+        cand = chosen[:i] + chosen[i + 1:]
+        if reproduces(cand, times=1):
+            chosen = cand
+        else:
+            i += 1
+    q = dict(plan)
+    q["prelude"] = chosen
+    q["replay"] = True
+    return q
+
+
 # ---------------------------------------------------------------------------------- minimisation
 def minimise(exe, plan, cls, sig, sym, budget_s=90):
     """ddmin over ops, schedule switches, then argument simplification; the same class+signature must persist"""
@@ -349,7 +430,7 @@ def minimise(exe, plan, cls, sig, sym, budget_s=90):
         # collapse to fewer tasks / phases is implied by dropped ops; now simplify arguments
         ops = [dict(o) for o in p["ops"]]
         for i in range(len(ops)):
-            for field, simple in (("env", None), ("heap", None), ("fault", None), ("key", 0), ("input", 0)):
+            for field, simple in (("env", None), ("heap", None), ("fault", None), ("pre", None), ("pfault", None), ("key", 0), ("input", 0)):
                 if field not in ops[i] or time.time() - t0 > budget_s:
                     continue
                 if simple is not None and ops[i][field] == simple:
@@ -385,6 +466,29 @@ def minimise(exe, plan, cls, sig, sym, budget_s=90):
         p["ops"] = ops
     elif "steps" in p:
         p = ddmin_list(p, "steps")
+    if p.get("prelude"):
+        # shrink the earlier histories as well: op lists of each prelude plan
+        for pi in range(len(p["prelude"])):
+            if time.time() - t0 > budget_s:
+                break
+            pre = p["prelude"][pi]
+            key = "ops" if "ops" in pre else "steps"
+            items = list(pre.get(key, []))
+            n = 2
+            while len(items) >= 2 and time.time() - t0 < budget_s:
+                chunk = max(1, len(items) // n)
+                reduced = False
+                for i in range(0, len(items), chunk):
+                    cand = items[:i] + items[i + chunk:]
+                    q = dict(p); q["prelude"] = list(p["prelude"]); q["prelude"][pi] = dict(pre, **{key: cand})
+                    if cand and fails(q):
+                        items = cand; pre = dict(pre, **{key: cand}); p = q
+                        n = max(n - 1, 2); reduced = True
+                        break
+                if not reduced:
+                    if chunk == 1:
+                        break
+                    n = min(len(items), n * 2)
     p["note"] = "minimised from %d to %d %s in %d replays" % (len(plan.get("ops", plan.get("steps", []))), len(p.get("ops", p.get("steps", []))), "ops" if "ops" in p else "steps", tests[0])
     return p, tests[0]
 
@@ -481,12 +585,12 @@ def run_check(prop, tier, seed, budget_scale=1.0):
             if v["cls"] in relevant:
                 k = (v["cls"], s)
                 if k not in found:
-                    found[k] = {"plan": plan, "key": key, "count": 0, "idx": idx, "detail": v.get("detail", ""), "opkind": v.get("opkind", "")}
+                    found[k] = {"plan": plan, "key": key, "count": 0, "idx": idx, "detail": v.get("detail", ""), "opkind": v.get("opkind", ""), "batch": b}
                 elif found[k]["plan"] is None and plan is not None:
-                    found[k].update({"plan": plan, "key": key, "idx": idx, "detail": v.get("detail", "")})
+                    found[k].update({"plan": plan, "key": key, "idx": idx, "detail": v.get("detail", ""), "batch": b})
                 elif key[1] == "shipped" and found[k]["key"][1] != "shipped" and plan is not None:
                     # an occurrence on the shipped configuration needs no cross-configuration confirmation: prefer it
-                    found[k].update({"plan": plan, "key": key, "idx": idx, "detail": v.get("detail", "")})
+                    found[k].update({"plan": plan, "key": key, "idx": idx, "detail": v.get("detail", ""), "batch": b})
                 found[k]["count"] += 1
             else:
                 cross[(v["cls"], s)] += 1
@@ -500,6 +604,7 @@ def run_check(prop, tier, seed, budget_scale=1.0):
     # ---------------- determinism gate: re-run a sample in other processes at another worker count
     gate_n = cfg.get("gate", {}).get(tier, 32)
     gate_checked = 0
+    history_dependent = [0]
     for spec, b, key in all_batches:
         if spec.get("mode") == "enum" and False:
             continue
@@ -516,6 +621,11 @@ def run_check(prop, tier, seed, budget_scale=1.0):
             gate_checked += 1
             if a.get("fp") != c.get("fp") or bool(a.get("crashed")) != bool(c.get("crashed")):
                 if a.get("crashed") and c.get("crashed"):
+                    continue
+                if a.get("sfp") is not None and a.get("sfp") == c.get("sfp") and not a.get("crashed") and not c.get("crashed"):
+                    # same results, different event trace: the library keeps state across histories of one process (a memo,
+                    # a lazily grown table) that changes what it requests, not what it returns - not the simulator's doing
+                    history_dependent[0] += 1
                     continue
                 infra_problems.append("determinism gate: run %d of batch %s has fingerprints %s vs %s" % (i, spec.get("name"), a.get("fp"), c.get("fp")))
     if infra_problems:
@@ -546,8 +656,15 @@ def run_check(prop, tier, seed, budget_scale=1.0):
             if has_violation(r, cls, sig, sym):
                 ok += 1
         if ok < 2:
-            infra_problems.append("replay gate: %s / %s reproduced %d of 2 times" % (cls, sig, ok))
-            continue
+            # Not reproducible from the plan alone: the library may carry state from one history into the next (a static,
+            # a thread_local, a recycled buffer). Replay the violating plan after the plans the same worker process had
+            # executed before it, shortest sufficient suffix first.
+            hist = with_process_history(exe, sym, info["batch"], info["idx"], plan, cls, sig)
+            if hist is None:
+                infra_problems.append("replay gate: %s / %s reproduced %d of 2 times (also not with the process history of its worker)" % (cls, sig, ok))
+                continue
+            plan = hist
+            log("violation needs process history:", cls, sig, "prelude of", len(plan["prelude"]), "plan(s)")
         if kf is not None:
             known_hits.append((cls, sig, kf))
             continue
@@ -612,10 +729,13 @@ def run_check(prop, tier, seed, budget_scale=1.0):
             "distinct_interleavings": len(ilvs),
             "distinct_interleavings_measure": "hash of the (from-task, to-task, site) sequence over every scheduling decision that switched threads",
             "allocation_requests": {"operator_new": reqs[0], "posix_memalign": reqs[1], "mmap": reqs[2], "mmap_hugetlb": reqs[3]},
-            "faults_fired": {"operator_new": fired[0], "posix_memalign": fired[1], "mmap": fired[2], "mmap_hugetlb": fired[3]},
+            "faults_fired": {"operator_new": fired[0], "posix_memalign": fired[1], "mmap": fired[2], "mmap_hugetlb": fired[3],
+                             "mprotect_refused": probes.get("seam_mprotect_refused", 0), "alloc_fault_inside_hash": probes.get("alloc_fault_in_hash_fired", 0),
+                             "instruction_level_preemptions": probes.get("seam_preempt_fired", 0), "dirty_heap_blocks_and_address_reuse": probes.get("seam_reuse_big", 0) + probes.get("seam_reuse_small", 0) + probes.get("seam_reuse_tiny", 0)},
             "reach_probes": dict(sorted(probes.items())),
             "probes_stuck_at_zero": [p for p in cfg.get("expected_probes", []) if probes.get(p, 0) == 0],
             "determinism_gate_runs_compared": gate_checked,
+            "determinism_gate_same_results_different_trace": history_dependent[0],
             "cross_notes_other_properties": [{"cls": k[0], "sig": k[1], "count": v} for k, v in cross.most_common(10)],
             "known_findings_seen": [{"cls": c, "sig": s} for c, s, _ in known_hits],
             "unconfirmed_small_config_anomalies": unconfirmed,
